@@ -26,6 +26,7 @@ using namespace verif;
 static constexpr size_t ARENA_SIZE = 64u << 20;   // two zones of 32 MiB
 static unsigned char *arena_base = nullptr;
 static int g_mutex_held = 0;
+static const char *g_fail_prop = "C04";   // property that violations of failing-map operations are attributed to (C02/C03/C04, whichever is being checked)
 static bool g_poison_first = false;   // running for C03: after a failed map() the poison invariants are checked before the C04 oracle
 
 struct CountingMutex {
@@ -296,7 +297,7 @@ struct SlabHarness : HarnessBase {
 		asan_open();
 		// when map() was made to fail in this op, everything that goes wrong belongs to C04
 		bool failing = PS.fail_at >= 0 && PS.maps_this_op > PS.fail_at;
-		const char *P3 = failing ? "C04" : "C03", *P2 = failing ? "C04" : "C02";
+		const char *P3 = failing ? g_fail_prop : "C03", *P2 = failing ? g_fail_prop : "C02";
 		PS.fail_at = -1;
 		if(g_mutex_held) { g_mutex_held = 0; fail("C04", "mutex-left-locked", "a pool mutex is still locked after " + what + " returned"); }
 		size_t used = pool().numUsedPages();
@@ -342,9 +343,9 @@ struct SlabHarness : HarnessBase {
 			if(failed) {
 				fails_used++;
 				if(poisoning && g_poison_first) for(auto &b : live) check_unpoisoned(b);
-				if(p) fail("C04", "alloc-nonnull-after-map-failure", "allocate returned a block although map() failed");
+				if(p) fail(g_fail_prop, "alloc-nonnull-after-map-failure", "allocate returned a block although map() failed");
 				fails_used--; std::string after; canon(after); fails_used++;
-				if(after != canon_before) fail("C04", "state-changed-after-failed-alloc", "pool state / mapped regions / page counter differ after an allocation that failed in map()");
+				if(after != canon_before) fail(g_fail_prop, "state-changed-after-failed-alloc", "pool state / mapped regions / page counter differ after an allocation that failed in map()");
 				verify_patterns("failed-alloc");
 				return;
 			}
@@ -407,11 +408,11 @@ struct SlabHarness : HarnessBase {
 		if(failed) {
 			fails_used++;
 			if(poisoning && g_poison_first) for(auto &b : live) for(size_t k = 0; k < b.req; k++) if(g_shadow[b.p - (uintptr_t)arena_base + k]) fail("C03", "poison:live-byte-poisoned-after-failed-realloc", "after a realloc that failed in map() a requested byte of a live block (the source included) is poisoned");
-			if(r) fail("C04", "realloc-nonnull-after-map-failure", "realloc returned a block although map() failed");
+			if(r) fail(g_fail_prop, "realloc-nonnull-after-map-failure", "realloc returned a block although map() failed");
 			fails_used--; std::string after; canon(after); fails_used++;
-			if(after != canon_before) fail("C04", "state-changed-after-failed-realloc", "pool state differs after a realloc that failed in map()");
+			if(after != canon_before) fail(g_fail_prop, "state-changed-after-failed-realloc", "pool state differs after a realloc that failed in map()");
 			verify_patterns("failed-realloc");   // includes the source block
-			if(pool().get_size((void *)old.p) != old.size) fail("C04", "source-size-changed", "the source block's size changed after a failed realloc");
+			if(pool().get_size((void *)old.p) != old.size) fail(g_fail_prop, "source-size-changed", "the source block's size changed after a failed realloc");
 			return;
 		}
 		if(!r) fail("C01", "null-without-failure", "realloc returned null although map() did not fail");
@@ -496,6 +497,7 @@ using CfgTinyU  = ArenaPolicy<256, 4096,   4096,    8, false, true>;    // one-a
 using CfgTinyNP = ArenaPolicy<256, 4096,   4096,    8, true,  false>;   // no poison hooks
 using CfgSplit  = ArenaPolicy<256, 2048,   4096,    7, true,  true>;    // slab (2 KiB) < superblock (4 KiB)
 using CfgOdd    = ArenaPolicy<4096, 7 * 4096, 8 * 4096, 11, true, true>; // slab 7 pages, largest class 2 pages
+using CfgPageSb = ArenaPolicy<1024, 1024, 1024, 6, true, true>;         // superblock == slab == page: large blocks are superblock-aligned
 using CfgDefA   = ArenaPolicy<4096, 1 << 18, 1 << 18, 13, true, true>;   // defaults
 using CfgDefU   = ArenaPolicy<4096, 1 << 18, 1 << 18, 13, false, false>;
 
@@ -595,11 +597,14 @@ static std::vector<Instance> instances(const std::string &tier) {
 	bool c04 = want && std::string(want) == "C04";
 	bool c03 = want && std::string(want) == "C03";
 	g_poison_first = c03;
+	bool c02 = want && std::string(want) == "C02";
+	if(c02 || c03) g_fail_prop = c02 ? "C02" : "C03";
 	std::vector<Instance> v;
 	std::vector<size_t> tiny = {0, 8, 9, 600, 1024, 1025, 4097};
 	std::vector<size_t> split = {0, 16, 300, 512, 513, 4000};
 	std::vector<size_t> odd = {8, 5000, 8192, 8193, 40000};
 	std::vector<size_t> def = {1, 4096, 32768, 32769, (1 << 18) + 1};
+	std::vector<size_t> pagesb = {8, 200, 256, 257, 1025, 3000};
 	int F = c04 ? (th ? 2 : 1) : 0;
 	std::string sfx = c04 ? "-fail" + std::to_string(F) : "";
 	int D = th ? 7 : 5;       // depth cap of the full-alphabet runs
@@ -610,11 +615,16 @@ static std::vector<Instance> instances(const std::string &tier) {
 			IN3(v.push_back(sweep_inst<CfgDefA>("sweep-defaultA" + bs, 0, th, b));)
 			IN3(v.push_back(sweep_inst<CfgDefU>("sweep-defaultU-skew4096" + bs, 4096, th, b));)
 			IN2(v.push_back(sweep_inst<CfgOdd>("sweep-odd" + bs, 0, th, b));)
+			IN2(v.push_back(sweep_inst<CfgPageSb>("sweep-pagesb" + bs, 0, th, b));)
 			IN0(v.push_back(sweep_inst<CfgTinyA>("sweep-tinyA" + bs, 0, th, b));)
 			IN1(v.push_back(sweep_inst<CfgTinyU>("sweep-tinyU-skew256" + bs, 256, th, b));)
 			IN1(v.push_back(sweep_inst<CfgTinyNP>("sweep-tinyNP" + bs, 0, th, b));)
 			IN2(v.push_back(sweep_inst<CfgSplit>("sweep-split" + bs, 0, th, b));)
 		}
+	}
+	if(c02) {   // "realloc frees the old block only when it moved" / "bytes of a live block change only by their owner" also across failing map() calls
+		IN0(v.push_back(slab_inst<CfgTinyA>("tinyA-L3-contents-after-map-failure", 3, 0, 1, tiny, th ? 5 : 4));)
+		IN2(v.push_back(slab_inst<CfgOdd>("odd-L2-contents-after-map-failure", 2, 0, 1, odd, th ? 4 : 3));)
 	}
 	if(c03) {   // the poison protocol must also hold across failing map() calls
 		IN0(v.push_back(slab_inst<CfgTinyA>("tinyA-L3-poison-after-map-failure", 3, 0, 1, tiny, th ? 5 : 4));)
@@ -644,6 +654,7 @@ static std::vector<Instance> instances(const std::string &tier) {
 	IN1(v.push_back(slab_inst<CfgTinyNP>("tinyNP" + sfx, 3, 0, F, tiny, D));)
 	IN2(v.push_back(slab_inst<CfgSplit>("split" + sfx, 3, 0, F, split, D));)
 	IN2(v.push_back(slab_inst<CfgOdd>("odd" + sfx, 3, 0, F, odd, D - 1));)
+	IN2(v.push_back(slab_inst<CfgPageSb>("pagesb" + sfx, 3, 0, F, pagesb, D));)
 	IN3(v.push_back(slab_inst<CfgDefA>("defaultA" + sfx, 2, 0, F, def, D - 2));)
 	IN3(v.push_back(slab_inst<CfgDefU>("defaultU" + sfx, 2, 4096, F, def, D - 2));)
 	if(const char *t = getenv("VERIF_SLAB_TEST")) {   // ad-hoc sizing experiments: "L:depth:size,size,..."
